@@ -279,7 +279,15 @@ class C02(ScheduleEnumerationMixin, EngineCheck):
             case['collab'] = draw(collabs())
             return _sanitize(case)
 
-        return s()
+        @st.composite
+        def lazy_in_rec(draw):
+            # F8 region (laziness inside a recurrent subgraph is a known finding): termination must hold there too
+            case = draw(st.one_of(oneof_in_recurrent_templates(tier, failures=True),
+                                  switch_in_recurrent_templates(tier)))
+            case['collab'] = draw(collabs())
+            return case
+
+        return st.one_of(*([s()] * 14), lazy_in_rec())
 
     def oracle(self, case, refres, obs):
         v = []
@@ -788,6 +796,76 @@ def oracle_routing_per_iteration(o, case):
     return out
 
 
+@st.composite
+def oneof_in_recurrent_templates(draw, tier, failures=False):
+    """a one-of on the start->destination path of a recurrent subgraph (known finding F8 region: on re-iteration every
+    candidate on the path is executed and a failing one fails the run, so only termination, the model-free iteration
+    bounds and ROUTING are checked: whenever the consumer body runs in iteration i its argument is the value, computed
+    in iteration i, of the first candidate that does not fail)"""
+    def N(nid, params=(), mode='gated', **kw):
+        d = {'id': nid, 'params': [list(p) for p in params], 'mode': mode}
+        d.update(kw)
+        return d
+    ext = st.sampled_from(['gated', 'gated', 'thread', 'coro', 'inline'])
+    ncand = draw(st.integers(2, 3))
+    nodes = [N('n0', mode='coro'), N('n1', [('k0', ['in', 'n0'])], mode=draw(ext), additional_data=True)]
+    cands = []
+    for i in range(ncand):
+        src = 'n1'
+        if draw(st.integers(0, 3)) == 0:
+            mid = f'n{len(nodes)}'
+            nodes.append(N(mid, [('k0', ['in', 'n1'])], mode=draw(ext)))
+            src = mid
+        nid = f'n{len(nodes)}'
+        nodes.append(N(nid, [('k0', ['in', src])], mode=draw(ext)))
+        cands.append(nid)
+    cons = f'n{len(nodes)}'
+    params = [('k0', ['oneof', cands])]
+    if draw(st.booleans()):
+        params.append(('k1', ['in', 'n1']))
+    nodes.append(N(cons, params, mode=draw(ext)))
+    dest = cons
+    if draw(st.booleans()):
+        dest = f'n{len(nodes)}'
+        nodes.append(N(dest, [('k0', ['in', cons])], mode=draw(ext)))
+    S.node_index({'nodes': nodes})[dest].update(rec_dest=True, use_default=draw(st.booleans()))
+    maxit = draw(st.integers(1, 3))
+    out = f'n{len(nodes)}'
+    nodes.append(N(out, [('k0', ['rec', 'n1', dest, maxit])], mode=draw(ext)))
+    prog = {'nodes': nodes, 'output': out}
+    var = {'x': 0, 'nodes': {dest: {'rec_n': draw(st.integers(1, maxit + 1))}}}
+    failing = []
+    if failures:
+        k = draw(st.integers(0, ncand))
+        failing = cands[:k] if draw(st.booleans()) else [c for c in cands if draw(st.booleans())]
+        for c in failing:
+            var['nodes'][c] = {'outcomes': [], 'tail': 'ErrA'}
+    scheds = [draw(G.schedules(prog)) for _ in range(3)]
+    return {'program': prog, 'variant': var, 'scheds': scheds, 'oneof_in_recurrent': cons,
+            'lazy_in_recurrent_failing': failing}
+
+
+def oracle_oneof_routing_per_iteration(o, case):
+    out = []
+    prog = case['program']
+    cons = case['oneof_in_recurrent']
+    mark = [m for _, m in S.node_index(prog)[cons]['params'] if m[0] == 'oneof'][0]
+    alive = [c for c in mark[1] if c not in case['lazy_in_recurrent_failing']]
+    ents = [e for e in o.bodies if e['node'] == cons]
+    for i, e in enumerate(ents):
+        v = e['kwargs'].get('k0')
+        if not alive:
+            out.append(('consumer-ran-without-candidate', f'iteration {i}: every candidate fails but {cons} ran with '
+                                                          f'k0 = {R.canon(v)}'))
+        elif not R.is_value(v) or v[1] != alive[0]:
+            out.append(('wrong-candidate-routed', f'iteration {i}: {cons}.k0 = {R.canon(v)} (expected the value of '
+                                                  f'{alive[0]}, the first candidate that does not fail)'))
+        elif dict(v[3]).get('n1', 0) != i:
+            out.append(('stale-candidate-value', f'iteration {i}: {cons}.k0 = {R.canon(v)} belongs to iteration '
+                                                 f'{dict(v[3]).get("n1", 0)}'))
+    return out
+
+
 def oracle_iteration_bounds(o, program):
     """model-free bounds that hold for every program shape, also where laziness inside a recurrent subgraph is
     known to be broken (F8): a node outside every start->destination path executes at most once (plus its retry
@@ -1044,7 +1122,8 @@ class C11(EngineCheck):
     def strategy(self, tier):
         kw = self.gen_kwargs(tier)
         base = G.cases(**kw).map(_sanitize).filter(lambda c: S.has_kind(c['program'], 'rec'))
-        return st.one_of(*([base] * 12), rec_consumer_templates(tier), switch_in_recurrent_templates(tier))
+        return st.one_of(*([base] * 12), rec_consumer_templates(tier), switch_in_recurrent_templates(tier),
+                         oneof_in_recurrent_templates(tier))
 
     def oracle(self, case, refres, obs):
         v = []
@@ -1056,6 +1135,9 @@ class C11(EngineCheck):
             if case.get('switch_in_recurrent'):
                 # F8 region (laziness inside the subgraph is a known finding): bounds, routing and the final value
                 v += _tag(oracle_routing_per_iteration(o, case), i)
+                continue
+            if case.get('oneof_in_recurrent'):
+                v += _tag(oracle_oneof_routing_per_iteration(o, case), i)
                 continue
             v += _tag(O.oracle_executed(o, refres), i)
             v += _tag(O.oracle_kwargs(o, refres), i)
